@@ -18,6 +18,7 @@ func checkC20(r *core.Run) {
 	r.Rule("G-demote: in verifySuperStorageNodes each failing requirement (status mask, pledge missing/below threshold, share check error, delegation being removed) is followed within the iteration by SetNormalNode unless Role != super")
 	r.Rule("hook exhaustiveness: AfterDelegationModified, BeforeDelegationRemoved, AfterValidatorRemoved, AfterValidatorBonded, AfterValidatorBeginUnbonding call verifySuperStorageNodes on every path")
 	r.Rule("RemoveVstorage: after the decrement the threshold is re-tested on every success path and a super node below it is demoted and persisted; Reset: Role := normal before re-evaluation")
+	r.Rule("no-stale-check: after CheckNodeShare(&node,..) no store to node.Validator/Status before the record is persisted")
 	r.Rule("D3: no process-resident state (shared with C01/C03)")
 	r.Assume(aDeps)
 	r.Assume(aCG)
@@ -227,5 +228,77 @@ func checkC20(r *core.Run) {
 			}
 		}
 	}
+	ruleNoStaleCheck(r)
 	ruleD3(r)
+}
+
+// ruleNoStaleCheck: after the requirements of a node record have been evaluated (CheckNodeShare(&node, ...)),
+// the fields the evaluation depends on are not rewritten before the record is persisted: otherwise the role
+// stored with the record was decided for a different validator / status than the one stored next to it.
+func ruleNoStaleCheck(r *core.Run) {
+	callee := "node/keeper.Keeper.CheckNodeShare"
+	n := 0
+	for _, f := range r.P.SortedFuncs(r.ConsensusFuncs()) {
+		for i, c := range callsIn(r, f, callee) {
+			call, ok := c.(*ssa.Call)
+			if !ok || len(call.Call.Args) < 3 {
+				continue
+			}
+			n++
+			rec := addrRoot(call.Call.Args[2]) // &node
+			key := core.Key("G-promote", r.P.Name(f), fmt.Sprintf("no requirement field rewritten after CheckNodeShare#%d", i+1))
+			bad := ""
+			isDep := func(ins ssa.Instruction) bool {
+				st, ok := ins.(*ssa.Store)
+				if !ok {
+					return false
+				}
+				fa, ok := st.Addr.(*ssa.FieldAddr)
+				if !ok || addrRoot(fa.X) != rec {
+					return false
+				}
+				switch fieldNameT(fa.X.Type(), fa.Field) {
+				case "Validator", "Status", "Creator":
+					bad = fieldNameT(fa.X.Type(), fa.Field) + " at " + r.P.Pos(st.Pos())
+					return true
+				}
+				return false
+			}
+			// rest of the call's block, then everything reachable
+			blk := call.Block()
+			after := false
+			found := false
+			for _, ins := range blk.Instrs {
+				if ins == call {
+					after = true
+					continue
+				}
+				if after && isDep(ins) {
+					found = true
+				}
+			}
+			seen := map[*ssa.BasicBlock]bool{}
+			st := append([]*ssa.BasicBlock{}, blk.Succs...)
+			for len(st) > 0 && !found {
+				b := st[len(st)-1]
+				st = st[:len(st)-1]
+				if seen[b] {
+					continue
+				}
+				seen[b] = true
+				for _, ins := range b.Instrs {
+					if isDep(ins) {
+						found = true
+					}
+				}
+				st = append(st, b.Succs...)
+			}
+			if found {
+				r.Violate("G-promote", key, r.P.Pos(call.Pos()), fmt.Sprintf("%s rewrites node.%s after CheckNodeShare decided the role: the role persisted with the record was evaluated against a different validator/status than the one stored (and the staking hooks only re-evaluate nodes whose declared validator matches)", r.P.Name(f), bad))
+			} else {
+				r.Discharge("G-promote", key, r.P.Pos(call.Pos()), "no store to Validator/Status of the evaluated record follows the evaluation")
+			}
+		}
+	}
+	r.Floor("checknodeshare_sites", n, 2)
 }
